@@ -41,6 +41,8 @@ type proc struct {
 	tactic string
 	lazy   func() (*proc, error)
 	oneshot bool
+	hardLimit time.Duration
+	respawn func() (*proc, error)
 }
 
 const doneMarker = "<<verif-done>>"
@@ -68,6 +70,8 @@ func startProc(name string, argv []string, prelude string, log io.Writer) (*proc
 }
 
 // roundtrip sends text followed by an echo marker and returns all output lines before the marker.
+// A watchdog kills the process if it does not answer within p.hardLimit (solvers do not always
+// honour their own time limits while bit-blasting).
 func (p *proc) roundtrip(text string) ([]string, error) {
 	if p.dead {
 		return nil, fmt.Errorf("%s: dead", p.name)
@@ -75,24 +79,49 @@ func (p *proc) roundtrip(text string) ([]string, error) {
 	if p.log != nil {
 		io.WriteString(p.log, text)
 	}
-	if _, err := io.WriteString(p.in, text+"(echo \""+doneMarker+"\")\n"); err != nil {
-		p.dead = true
-		return nil, err
+	type result struct {
+		lines []string
+		err   error
 	}
-	var lines []string
-	for {
-		line, err := p.out.ReadString('\n')
-		if err != nil {
+	done := make(chan result, 1)
+	go func() {
+		if _, err := io.WriteString(p.in, text+"(echo \""+doneMarker+"\")\n"); err != nil {
+			done <- result{nil, err}
+			return
+		}
+		var lines []string
+		for {
+			line, err := p.out.ReadString('\n')
+			if err != nil {
+				done <- result{lines, fmt.Errorf("%s: %v (output so far: %q)", p.name, err, lines)}
+				return
+			}
+			line = strings.TrimRight(line, "\r\n")
+			if strings.Contains(line, doneMarker) {
+				done <- result{lines, nil}
+				return
+			}
+			if line != "" {
+				lines = append(lines, line)
+			}
+		}
+	}()
+	limit := p.hardLimit
+	if limit == 0 {
+		limit = 10 * time.Minute
+	}
+	select {
+	case r := <-done:
+		if r.err != nil {
 			p.dead = true
-			return lines, fmt.Errorf("%s: %v (output so far: %q)", p.name, err, lines)
 		}
-		line = strings.TrimRight(line, "\r\n")
-		if strings.Contains(line, doneMarker) {
-			return lines, nil
-		}
-		if line != "" {
-			lines = append(lines, line)
-		}
+		return r.lines, r.err
+	case <-time.After(limit):
+		p.dead = true
+		p.cmd.Process.Kill()
+		<-done
+		p.cmd.Wait()
+		return nil, fmt.Errorf("%s: no answer within %v, process killed", p.name, limit)
 	}
 }
 
@@ -116,6 +145,7 @@ type Stats struct {
 	Errors    int
 	BySolver  map[string]int
 	SolverSec float64
+	Respawns  int
 }
 
 type frame struct {
@@ -175,6 +205,9 @@ func NewSolver(ctx *Ctx, opt Options) (*Solver, error) {
 		return nil, fmt.Errorf("starting z3: %v", err)
 	}
 	z3.setTO = func(ms int) string { return fmt.Sprintf("(set-option :timeout %d)\n", ms) }
+	z3.respawn = func() (*proc, error) {
+		return startProc(z3bin, []string{z3bin, "-in"}, "(set-option :global-declarations true)\n(set-option :produce-models true)\n", log)
+	}
 	if z3bin == "z3-new" {
 		// the incremental core is ~20x slower than bit-blasting on byte/table kernels (measured)
 		z3.tactic = "(then simplify propagate-values solve-eqs simplify bit-blast sat)"
@@ -325,9 +358,18 @@ func (s *Solver) Check(extra *Term, wantModel bool, vars []*Term) (Result, map[s
 				*p = *np
 			}
 		}
+		if p.dead && p.respawn != nil {
+			np, err := p.respawn()
+			if err == nil {
+				np.respawn, np.setTO, np.tactic, np.name = p.respawn, p.setTO, p.tactic, p.name
+				*p = *np
+				s.Stats.Respawns++
+			}
+		}
 		if p.dead {
 			continue
 		}
+		p.hardLimit = time.Duration(a.ms)*time.Millisecond*2 + 5*time.Second
 		var sb strings.Builder
 		sb.WriteString(s.sync(p))
 		if p.curTO != a.ms {
@@ -344,7 +386,15 @@ func (s *Solver) Check(extra *Term, wantModel bool, vars []*Term) (Result, map[s
 		} else {
 			sb.WriteString("(check-sat)\n")
 		}
+		tq := time.Now()
+		if os.Getenv("SYMGO_SLOW") == "2" {
+			os.WriteFile("/tmp/current_query.smt2", []byte(s.Script(extra)), 0644)
+		}
 		lines, err := p.roundtrip(sb.String())
+		if d := time.Since(tq); d > 1500*time.Millisecond && os.Getenv("SYMGO_SLOW") != "" {
+			fmt.Fprintf(os.Stderr, "slow query %.1fs on %s (tactic=%v, limit %dms): %v\n", d.Seconds(), p.name, a.tactic, a.ms, lines)
+			os.WriteFile(fmt.Sprintf("/tmp/slow_%d.smt2", s.Stats.Queries), []byte(s.Script(extra)), 0644)
+		}
 		res := Unknown
 		bad := err != nil
 		for _, l := range lines {
